@@ -15,11 +15,19 @@ PTR records / PTR questions they carry, deliveries, Added/Removed callbacks) and
            state (held / live / registered per browser and service) and the conclusion are compared.  A
            contract that the real trace violates is reported by name.
 
-Scenario JSON (`case`): see `gen_case`.  Times are ms since simulation start.
+Scenario JSON (`case`): {"simseed", "hosts": [{"up": t}...], "types": n, "svcs": [{"owner", "ty", + optional "ip" (v6 | dual: address
+records), "other_ttl", "host_ttl", "case" (bit 0 type label / bit 1 instance label / bit 2 host name in upper case), "txt" (TXT of
+about n bytes), "reuse" (re-register the same ServiceInfo object with a changed port)}...], "ops": [[t, "register" | "unregister", svc],
+[t, "update", svc, {"other_ttl", "host_ttl", "rev": r}], [t, "browse", host, type | [types...], {"cases": [...]}], [t, "close", host]],
+"net": {"seed", "mode", "dups", "drop": None | delivery index | {"dgram": d, "mode": "all" | "remote"}}, optional "stack" ("4" | "6" |
+"46": the sockets of EVERY host), "listen" (dedicated listen socket), "horizon" / "every" (long observation), "family"}.
+Times are ms since simulation start.  Hosts with two listeners (`46`, `listen`) are judged by stage O only.  A side report
+(`harness/c07proj.py`) evaluates the projection hypotheses of `C07_convergence_from_models_partial` on block logs of the same runs.
 """
 from __future__ import annotations
 
 import asyncio
+import functools
 import json
 import os
 import socket
@@ -39,7 +47,10 @@ ASSUMPTIONS = [
     "link: every datagram reaches every host that is up within 100 ms at least once, except the deliveries of one chosen datagram (K7)",
     "API discipline: services have unique names and one owner; update/unregister are issued on registered services; a host is closed "
     "no earlier than 400 ms after its last register/update call (after the call returned) and 300 ms after its last unregister (an application "
-    "awaiting the broadcast task that unregister returns); API calls on one service are at least 1 ms apart",
+    "awaiting the broadcast task that unregister returns; the family unregister-then-close generates the un-awaited case, a known finding); "
+    "API calls on one service are at least 1 ms apart",
+    "one medium per scenario: all hosts IPv4-only, all IPv6-only (link-local, one scope id) or all dual-stack (every multicast leaves twice); "
+    "links that mix IPv4-only and IPv6-capable hosts are not generated (K7 knows one medium)",
     "single loss = ONE datagram (any subset of its deliveries, up to all of them); observation horizons up to 2.5 virtual hours with "
     "PTR TTLs of 120-9000 s (expiry and refresh are in scope: K3b, KF)",
 ]
@@ -48,6 +59,8 @@ TYPES = ["_a._tcp.local.", "_b._tcp.local.", "_c._udp.local."]
 SETTLE_MS = 16000  # the theorem's bound
 WAIT_MS = 30000  # what the oracle waits (>= settle)
 MDNS = vsim.MDNS_ADDR
+MDNS6 = "ff02::fb"
+SCOPE = 3  # scope id of the simulated link on every IPv6 socket
 
 CFG = dict(ann=[350, 575, 800], upd=[0, 225, 450], bye=[0, 125, 250], maxDelay=100, qLo=20, qHi=120,
            qOff=[0, 1000, 5000, 14000], dupQ=999, respBefore=1000, respAfter=1200, regDelay=350,
@@ -92,6 +105,8 @@ def gen_flap_family(rng):
             cur += rng.choice([1, 300, 1000, 2500, rng.randint(1, 6000)])
             ops.append([cur, "unregister", i])
             cur += rng.choice([150, 400, 1000, 1100, 2000, rng.randint(101, 5000)])
+            if rng.random() < 0.3:
+                svcs[i]["reuse"] = True
             ops.append([cur, "register", i])
             cur += 350
     ops.sort(key=lambda o: (o[0], o[1]))
@@ -116,7 +131,7 @@ def gen_late_browser_family(rng):
     m = rng.choice([1, 5, 10, 30, 37, 38, 40, 45, 50, 56, 57, 60, 65, 70, 74, 75, 76, 80]) * minute + rng.choice([0, 1, rng.randint(0, minute)])
     if rng.random() < 0.25:
         # around the 75 % point of the default TTL (announcements at ~0.35-0.8 s + 3375 s): the browser starts after it, or so
-        # shortly before it that the 75 % point falls into its start-up phase (K3b's start-up branch: the boundary is 24.12 s)
+        # shortly before it that the 75 % point falls into its start-up phase (K3b's start-up branch: the boundary is 25.119 s)
         m = 3375000 + rng.choice([-40000, -30000, -26000, -25000, -24200, -24000, -23000, -15000, -5000, -1000, 0, 500, 1000, 5000]) \
             + rng.choice([0, 350, 800, rng.randint(0, 1000)])
     ops.append([m, "browse", 1, 0])
@@ -203,9 +218,132 @@ def gen_unreg_close_family(rng):
             "net": {"seed": rng.randrange(1 << 30), "mode": rng.choice(["uniform", "extreme", "mixed"]), "drop": None, "dups": "none"}}
 
 
+STACKS = ["4", "4", "4", "6", "46"]
+CROSS_P = 0.02  # how often a party spells a type differently from the others (known finding: the browser matches types case-sensitively)
+
+
+def draw_tcase(rng, ntypes, p=0.5):
+    """the spelling of every type in a scenario (bit 0 of a `case`): 0 = `_a._tcp.local.`, 1 = `_A._tcp.local.`"""
+    return [1 if rng.random() < p else 0 for _ in range(ntypes)]
+
+
+def svc_case(rng, tcase, ty, p_label=0.4):
+    """a service's `case`: bit 0 the scenario's spelling of its type (another one with probability CROSS_P), bits 1 / 2 an
+    upper-case instance label / host name"""
+    k = tcase[ty] ^ (1 if rng.random() < CROSS_P else 0)
+    if rng.random() < p_label:
+        k |= rng.choice([2, 4, 6])
+    return k
+
+
+def browse_op(rng, t, h, tys, tcase):
+    """[t, "browse", h, type | [types...], {"cases": [spelling per type]}]"""
+    cases = [tcase[ty] ^ (1 if rng.random() < CROSS_P else 0) for ty in (tys if isinstance(tys, list) else [tys])]
+    return [t, "browse", h, tys] + ([{"cases": cases}] if any(cases) else [])
+
+
+def link_variant(rng, case, p=0.4):
+    """socket topology of the hosts (one medium per scenario, see ASSUMPTIONS): "4" one IPv4 socket (the default of every earlier
+    case), "6" one IPv6 socket (link-local source, 4-tuple deliveries, ff02::fb), "46" both (every multicast leaves twice and is heard
+    twice, by two listeners); `listen`: a dedicated listen socket next to the respond socket, as `create_sockets` builds unless
+    unicast=True (multicast arrives on the listen socket, unicast on the respond socket, replies leave through the receiving one)"""
+    if rng.random() < p:
+        case["stack"] = rng.choice(STACKS)
+        if case["stack"] != "46" and rng.random() < 0.4:
+            case["listen"] = True
+    return case
+
+
+def gen_vocab_family(rng):
+    """review escapes 2-4: names and topologies outside lower-case / one type per browser / one IPv4 socket.  A host that comes up
+    after the announcements (so that its browser depends on its questions being answered) browses several types with ONE
+    AsyncServiceBrowser; types, instance labels and host names are spelled in mixed case, the browser's spelling need not be the
+    registration's"""
+    nh = rng.choice([2, 3])
+    ntypes = rng.choice([2, 3])
+    late = rng.choice([1500, 3000, rng.randint(1200, 6000)])
+    hosts = [{"up": 0}, {"up": late}] + ([{"up": rng.choice([0, 0, late + 500])}] if nh == 3 else [])
+    nsvc = rng.randint(2, 5)
+    tcase = draw_tcase(rng, ntypes, 0.6)
+    svcs, ops = [], []
+    for i in range(nsvc):
+        ty = i % ntypes if i < ntypes else rng.randrange(ntypes)
+        svcs.append({"owner": 0 if (i < 2 or nh == 2) else rng.choice([0, 2]), "ty": ty, "case": svc_case(rng, tcase, ty, 0.6)})
+        if rng.random() < 0.25:
+            svcs[-1]["ip"] = rng.choice(["v6", "dual"])
+        ops.append([hosts[svcs[-1]["owner"]]["up"] + rng.randint(0, 600), "register", i])
+    tys = sorted(rng.sample(range(ntypes), rng.choice([2, ntypes])))
+    ops.append(browse_op(rng, late + rng.choice([0, 1, 300]), 1, tys, tcase))
+    if nh == 3:
+        ops.append(browse_op(rng, hosts[2]["up"] + rng.randint(0, 2000), 2, rng.choice([rng.randrange(ntypes), list(range(ntypes))]), tcase))
+    if rng.random() < 0.4:
+        ops.append(browse_op(rng, rng.randint(0, 500), 0, list(range(ntypes)), tcase))
+    if rng.random() < 0.5:
+        # a service goes to a new revision and back to an earlier one (TXT rev=1 -> rev=2 -> rev=1), each step long enough after the
+        # other for the cache-flush rule to apply (> 1 s + the three announcements); browsers that start later resolve from the cache
+        i = rng.randrange(nsvc)
+        t1 = 1000 + rng.choice([200, 600, rng.randint(0, 1500)])
+        t2 = t1 + rng.choice([1800, 2500, 4000])
+        ops.append([t1, "update", i, {"rev": 1}])
+        ops.append([t2, "update", i, {"rev": 0}])
+        if rng.random() < 0.4:
+            ops.append([t2 + rng.choice([1800, 3000]), "update", i, {"rev": 1}])
+        ops.append(browse_op(rng, t2 + rng.choice([5000, 9000, 30000, 60000]), rng.randrange(nh), svcs[i]["ty"], tcase))
+    k = rng.random()
+    if k < 0.3:
+        ops.append([late + rng.choice([2000, 6000, rng.randint(500, 9000)]), "unregister", rng.randrange(nsvc)])
+    elif k < 0.5:
+        ops.append([late + rng.choice([2000, 6000, rng.randint(1500, 9000)]), "close", 0])
+    ops.sort(key=lambda o: (o[0], o[1]))
+    case = {"simseed": rng.randrange(1 << 30), "hosts": hosts, "types": ntypes, "svcs": svcs, "ops": ops, "family": "vocabulary",
+            "net": {"seed": rng.randrange(1 << 30), "mode": rng.choice(["uniform", "extreme", "mixed"]), "drop": None,
+                    "dups": rng.choice(["none", "none", "some"])}}
+    return link_variant(rng, case, 0.6)
+
+
+def gen_multipacket_family(rng):
+    """review escape 5: messages that need more than one datagram.  One host owns 2-6 services whose TXT records have 300-900 bytes
+    (inside the property's 1..6 services) or 21-32 small services of one type (outside it: the size at which the library's answer to a
+    browser no longer fits 1460 bytes).  A browser on a host that comes up after the announcements gets its answer as a train of
+    packets (PTRs first, SRV / TXT / address records spilling into the next ones); the owner is then closed (ONE goodbye message for all
+    its services = a train of packets, three times) or left running"""
+    nh = rng.choice([2, 3, 3])
+    if rng.random() < 0.65:
+        nsvc = rng.choice([2, 3, 4, 6])
+        svcs = [{"owner": 0, "ty": 0, "txt": rng.choice([300, 600, 900, rng.randint(200, 900)])} for _ in range(nsvc)]
+        if nsvc * 600 < 1500:
+            svcs[0]["txt"] = 900
+            svcs[1]["txt"] = 900
+    else:
+        nsvc = rng.randint(21, 32)
+        svcs = [{"owner": 0, "ty": 0} for _ in range(nsvc)]
+    hosts = [{"up": 0} for _ in range(nh)]
+    ops, t = [], rng.choice([0, 1, 200])
+    for i in range(nsvc):
+        ops.append([t, "register", i])
+        t += rng.choice([1, 10, 10, 50])
+    done = t + 350 + 450 + 100
+    ops.append([rng.choice([0, 100, done + 1200]), "browse", 1, 0])
+    end = done
+    if nh == 3:
+        hosts[2]["up"] = done + rng.choice([300, 1500, 3000])
+        ops.append([hosts[2]["up"] + rng.choice([0, 1, 200]), "browse", 2, 0])
+        end = hosts[2]["up"]
+    if rng.random() < 0.7:
+        ops.append([end + rng.choice([2000, 6000, 16000, rng.randint(1500, 16000)]), "close", 0])
+    ops.sort(key=lambda o: (o[0], o[1]))
+    case = {"simseed": rng.randrange(1 << 30), "hosts": hosts, "types": 1, "svcs": svcs, "ops": ops, "family": "multi-packet",
+            "net": {"seed": rng.randrange(1 << 30), "mode": rng.choice(["uniform", "extreme", "mixed"]), "drop": None, "dups": "none"}}
+    return link_variant(rng, case, 0.25)
+
+
 def gen_case(rng, idx=0, long_p=0.05):
     if idx == 6 or (idx > 6 and rng.random() < 0.02):
         return gen_unreg_close_family(rng)
+    if idx in (7, 8, 9) or (idx > 9 and rng.random() < 0.08):
+        return gen_vocab_family(rng)
+    if idx in (10, 11) or (idx > 11 and rng.random() < 0.03):
+        return gen_multipacket_family(rng)
     # the first scenarios of every run are long-horizon ones (cycling through the families), then each with probability long_p
     if idx < 6:
         c = [gen_flap_family, gen_late_browser_family, gen_mixed_ttl_family][idx % 3](rng)
@@ -233,12 +371,16 @@ def gen_case(rng, idx=0, long_p=0.05):
     last_reg_on_host = {}
     last_unreg_on_host = {}
     svcs = []
+    tcase = draw_tcase(rng, ntypes, 0.5 if rng.random() < 0.4 else 0.0)  # 40 % of the scenarios have types in mixed case
     for s in range(nsvc):
         owner = rng.randrange(nh)
         ty = rng.randrange(ntypes)
         svcs.append({"owner": owner, "ty": ty})
         if rng.random() < 0.25:
             svcs[-1]["ip"] = rng.choice(["v6", "v6", "dual"])  # IPv6-only / dual-stack services
+        k = svc_case(rng, tcase, ty, 0.25)  # mixed-case type / instance label / host name
+        if k:
+            svcs[-1]["case"] = k
         t = hosts[owner]["up"] + rng.choice([0, 1, rng.randint(0, 400), rng.randint(0, 4000), rng.randint(0, 8000)])
         ops.append([t, "register", s])
         last_reg_on_host[owner] = max(last_reg_on_host.get(owner, 0), t)
@@ -260,6 +402,8 @@ def gen_case(rng, idx=0, long_p=0.05):
                     last_reg_on_host[owner] = max(last_reg_on_host.get(owner, 0), cur)
             else:
                 cur += rng.choice([0, 1, 100, 350, 1001, rng.randint(0, 1500)])  # (gap >= 1 already added)
+                if rng.random() < 0.4:
+                    svcs[-1]["reuse"] = True  # re-register the same ServiceInfo object with a changed port
                 ops.append([cur, "register", s])
                 last_reg_on_host[owner] = max(last_reg_on_host.get(owner, 0), cur)
                 registered = True
@@ -269,7 +413,9 @@ def gen_case(rng, idx=0, long_p=0.05):
         h = rng.randrange(nh)
         ty = rng.randrange(ntypes)
         t = hosts[h]["up"] + rng.choice([0, 0, rng.randint(0, 300), rng.randint(0, 2000), rng.randint(0, 9000)])
-        ops.append([t, "browse", h, ty])
+        if ntypes > 1 and rng.random() < 0.3:  # one browser object for several types
+            ty = sorted(rng.sample(range(ntypes), rng.randint(2, ntypes)))
+        ops.append(browse_op(rng, t, h, ty, tcase))
     if nh > 2 and rng.random() < 0.35:
         h = rng.randrange(nh)
         t = max(hosts[h]["up"] + rng.randint(500, 7000), last_reg_on_host.get(h, -400) + 400 + rng.choice([0, 1, rng.randint(0, 3000)]),
@@ -279,7 +425,7 @@ def gen_case(rng, idx=0, long_p=0.05):
     ops.sort(key=lambda o: (o[0], o[1]))
     mode = rng.choice(["uniform", "extreme", "mixed", "mixed"])
     net = {"seed": rng.randrange(1 << 30), "mode": mode, "drop": None, "dups": "none" if rng.random() < 0.5 else rng.choice(["some", "many"])}
-    return {"simseed": rng.randrange(1 << 30), "hosts": hosts, "types": ntypes, "svcs": svcs, "ops": ops, "net": net}
+    return link_variant(rng, {"simseed": rng.randrange(1 << 30), "hosts": hosts, "types": ntypes, "svcs": svcs, "ops": ops, "net": net})
 
 
 def _op_host(o, svcs):
@@ -358,8 +504,57 @@ TYPE_IDX = {t: i for i, t in enumerate(TYPES)}
 SVC_TY = {}
 
 
-def svc_name(i, ty):
-    return "s%d.%s" % (i, TYPES[ty])
+def spell_type(ty, k=0):
+    """spelling variant k of type ty: bit 0 = the service-name label in upper case (`_A._tcp.local.`).  The protocol and domain labels
+    stay lower-case: the library's own validator (`service_type_name`) accepts `._tcp.local.` / `._udp.local.` only in that spelling"""
+    t = TYPES[ty]
+    if k & 1:
+        lab, rest = t.split(".", 1)
+        t = lab.upper() + "." + rest
+    return t
+
+
+def svc_name(i, ty, k=0):
+    """instance name; bit 1 of k = upper-case instance label"""
+    return ("S%d." if k & 2 else "s%d.") % i + spell_type(ty, k)
+
+
+def host_name(h, k=0):
+    """SRV target; bit 2 of k = upper-case host label"""
+    return ("H%d.local." if k & 4 else "h%d.local.") % h
+
+
+class Sock6(vsim.FakeSock):
+    def __init__(self, fileno, addr):
+        super().__init__(fileno, addr)
+        self.family = socket.AF_INET6
+
+
+def make_host(sim, name, idx, stack="4", listen=False):
+    """a host with one socket per character of `stack` ('4' = AF_INET bound to 10.0.0.n, '6' = AF_INET6 bound to fe80::n%SCOPE) and,
+    with `listen`, a dedicated listen socket (readers = [listen, respond...], senders = [respond...])"""
+    from unittest import mock
+
+    from zeroconf import Zeroconf
+    import zeroconf._core as core
+
+    host = vsim.Host(sim, name, "10.0.0.%d" % (idx + 1))
+    host.ip6 = "fe80::%x" % (idx + 1)
+    host.stack = stack
+    base = 10 + 4 * len(sim.net.hosts)
+    socks = []
+    for j, fam in enumerate(stack):
+        socks.append(vsim.FakeSock(base + j, (host.ip, 5353)) if fam == "4" else Sock6(base + j, (host.ip6, 5353, 0, SCOPE)))
+    lsock = None
+    if listen:
+        lsock = vsim.FakeSock(base + 3, ("0.0.0.0", 5353)) if stack == "4" else Sock6(base + 3, ("::", 5353, 0, 0))
+        host.lsock = lsock
+    for sk in socks + ([lsock] if lsock is not None else []):
+        vsim._sock_host[id(sk)] = host
+    host.sock = socks[0]
+    with mock.patch.object(core, "create_sockets", lambda *a, **k: (lsock, socks)):
+        host.zc = Zeroconf(interfaces=[host.ip])
+    return host
 
 
 def all_addresses(info):
@@ -368,8 +563,9 @@ def all_addresses(info):
     return info.addresses_by_version(IPVersion.All)
 
 
-def run_case(case):
-    """run one scenario on the real code; returns the observation dict"""
+def run_case(case, proj=False):
+    """run one scenario on the real code; returns the observation dict.  proj: also record the block logs of every host's
+    registry / broadcast tasks / queues, of every browser's scheduler and of every cache purge (harness/c07proj.py)"""
     from zeroconf import ServiceInfo, ServiceListener
     from zeroconf.asyncio import AsyncServiceBrowser, AsyncServiceInfo
 
@@ -377,6 +573,8 @@ def run_case(case):
     plan = Plan(case["net"])
     svcs = [dict(sv) for sv in case["svcs"]]  # (an `update` op may change a service's TTLs)
     names = {svc_name(i, s["ty"]).lower(): i for i, s in enumerate(svcs)}
+    stack = case.get("stack", "4")
+    listen = bool(case.get("listen"))
     SVC_TY.clear()
     SVC_TY.update({i: s["ty"] for i, s in enumerate(svcs)})
     trace = []  # abstract events
@@ -390,10 +588,15 @@ def run_case(case):
     sstate = ["idle"] * len(svcs)  # idle | registering | registered
     versions = [[] for _ in svcs]  # advertised (t, port, txt, server, addr)
     cur_info = [None] * len(svcs)
-    browsers = []
+    browsers = []  # one entry per (browser object, type): the link model's browsers have one type each
+    real_browsers = []
     lookups = []
     skipped = []
     api_times = []
+    unreg_calls = []  # [t, svc]: explicit async_unregister_service calls (never awaited by this harness)
+    close_unregs = []  # [t, svc, host]: services still registered when their host is closed (withdrawn by async_close itself)
+    net.refused = []
+    ignored = []  # [position in the raw trace, t, datagram, host]: deliveries the receiving listener did not parse
     drop = case["net"].get("drop")
     drop_dgram = None
     if isinstance(drop, dict):  # {"dgram": send index, "mode": "all" | "remote"}
@@ -408,22 +611,32 @@ def run_case(case):
             it = memo[data] = abstract(data, names)
         return it
 
-    def net_send(src, data, addr):
+    def net_send(src, data, addr, fam=None):
         t = now()
         d = len(net.log)
         net.log.append((t, src.name, addr[0], addr[1], data))
+        if net.on_send is not None:  # (the block recorder attributes the datagram to the block that sent it)
+            net.on_send(t, src, data, addr)
+        v6 = ":" in addr[0]
+        if fam is None:
+            fam = 6 if v6 else 4
+        if v6 != (fam == 6) or (v6 and (addr[0] == MDNS6 or addr[0].lower().startswith("fe80")) and (len(addr) < 4 or addr[3] != SCOPE)):
+            # what the OS refuses: a destination of the other address family, a link-local / multicast IPv6 destination without
+            # the link's scope id.  Nothing leaves the host (and nothing enters the trace: a `send` is a datagram on the link)
+            net.refused.append([t, src.idx, d, list(addr)])
+            return
         items = ab(data)
-        mc = addr[0] == MDNS
+        mc = addr[0] in (MDNS, MDNS6)
         dst = None
         if not mc:
             for h in net.hosts:
-                if h.ip == addr[0]:
+                if addr[0] == (h.ip6 if fam == 6 else h.ip):
                     dst = h.idx
             if dst is None:
                 dst = 99
         trace.append([t, "send", src.idx, d, dst, items])
         for h in net.hosts:
-            if mc or h.ip == addr[0]:
+            if str(fam) in h.stack and (mc or addr[0] == (h.ip6 if fam == 6 else h.ip)):
                 i = net.n
                 net.n += 1
                 net.targets.append([i, d, h.idx, t])
@@ -435,40 +648,64 @@ def run_case(case):
                     # other host ("remote": on the wire, the sender still hears itself)
                     net.dropped = ["dgram", d, drop_dgram.get("mode", "all")]
                     continue
-                sim.loop.call_later(plan.delay(i) / 1000.0, deliver, h, d, src, mc, data, items)
+                sim.loop.call_later(plan.delay(i) / 1000.0, deliver, h, d, src, mc, data, items, fam)
                 if plan.dup(i):
-                    sim.loop.call_later(plan.delay(i, "d2") / 1000.0, deliver, h, d, src, mc, data, items)
+                    sim.loop.call_later(plan.delay(i, "d2") / 1000.0, deliver, h, d, src, mc, data, items, fam)
 
-    def deliver(h, d, src, mc, data, items):
-        if h.transport is None or h.transport.closed or hstate[h.idx] != "up":
+    def deliver(h, d, src, mc, data, items, fam=4):
+        # multicast arrives on the dedicated listen socket when the host has one, everything else on the socket of its family
+        tr = h.ltransport if (mc and h.ltransport is not None) else h.by_fam.get(fam)
+        if tr is None or tr.closed or hstate[h.idx] != "up":
             return
         trace.append([now(), "dlv", d, src.idx, h.idx, 1 if mc else 0, items])
-        h.transport.protocol.datagram_received(data, (src.ip, src.port))
+        before = tr.protocol.last_message
+        tr.protocol.datagram_received(data, (src.ip, src.port) if fam == 4 else (src.ip6, src.port, 0, SCOPE))
+        if tr.protocol.last_message is before:
+            # observed, not recomputed: the listener returned before parsing (duplicate-packet guard, oversize).  The link trace keeps
+            # the delivery (on a one-listener host an ignored verbatim repeat is a no-op, C16); the projection report needs to know
+            ignored.append([len(trace) - 1, now(), d, h.idx])
+
+    def sendto(h, tr, data, addr=None):
+        if tr.closed:
+            sim.sends_after_close.append((now(), h.name, bytes(data), addr))
+            return
+        net_send(h, bytes(data), addr, 6 if tr.sock.family == socket.AF_INET6 else 4)
 
     net.send = net_send
 
     class L(ServiceListener):
-        def __init__(self, b, zc):
-            self.b = b
+        """the listener of ONE browser object; a browser for several types is several browsers of the link model (`b_of`)"""
+
+        def __init__(self, zc):
             self.zc = zc
-            self.live = set()
+            self.b_of = {}  # type index -> model browser
+            self.live = {}  # name as reported -> model browser
             self.bad = []
+
+        def _b(self, t, n, what):
+            b = self.b_of.get(TYPE_IDX.get(t.lower()))
+            if b is None:
+                self.bad.append([what + "-for-a-type-not-browsed", n, now()])
+                b = min(self.b_of.values())
+            return b
 
         def add_service(self, zc, t, n):
             s = names.get(n.lower())
+            b = self._b(t, n, "add")
             if n in self.live:
                 self.bad.append(["double-add", n, now()])
-            self.live.add(n)
-            trace.append([now(), "add", self.b, s if s is not None else -1])
+            self.live[n] = b
+            trace.append([now(), "add", b, s if s is not None else -1])
             if s is not None:
-                asyncio.ensure_future(lookup(self.b, zc, t, n, s))
+                asyncio.ensure_future(lookup(b, zc, t, n, s))
 
         def remove_service(self, zc, t, n):
             s = names.get(n.lower())
+            b = self._b(t, n, "remove")
             if n not in self.live:
                 self.bad.append(["remove-without-add", n, now()])
-            self.live.discard(n)
-            trace.append([now(), "rem", self.b, s if s is not None else -1])
+            self.live.pop(n, None)
+            trace.append([now(), "rem", b, s if s is not None else -1])
 
         def update_service(self, zc, t, n):
             pass
@@ -486,7 +723,6 @@ def run_case(case):
     def make_info(i, ver):
         s = svcs[i]
         h = hosts[s["owner"]]
-        ty = TYPES[s["ty"]]
         kw = {}
         if s.get("other_ttl") is not None:
             kw["other_ttl"] = s["other_ttl"]  # TTL of the PTR (and TXT) record
@@ -497,19 +733,28 @@ def run_case(case):
             addrs = [socket.inet_pton(socket.AF_INET6, "2001:db8::%x" % (s["owner"] + 1))]
         elif s.get("ip") == "dual":
             addrs.append(socket.inet_pton(socket.AF_INET6, "2001:db8::%x" % (s["owner"] + 1)))
-        return ServiceInfo(ty, svc_name(i, s["ty"]), 8000 + 10 * i + ver, addresses=addrs,
-                           server="h%d.local." % s["owner"], properties={"k": "v%d" % ver, "i": str(i)}, **kw)
+        k = s.get("case", 0)
+        props = {"k": "v%d" % ver, "i": str(i)}
+        for j in range(0, s.get("txt", 0), 200):  # a TXT record of about `txt` bytes (items of at most 255)
+            props["p%d" % (j // 200)] = "x" * min(194, s["txt"] - j)
+        return ServiceInfo(spell_type(s["ty"], k), svc_name(i, s["ty"], k), 8000 + 10 * i + ver, addresses=addrs,
+                           server=host_name(s["owner"], k), properties=props, **kw)
 
-    def advertise(i, info):
-        versions[i].append({"t": now(), "port": info.port, "server": info.server, "txt": info.text.hex(),
+    def advertise(i, info, kind):
+        versions[i].append({"t": now(), "kind": kind, "port": info.port, "server": info.server, "txt": info.text.hex(),
                             "addrs": sorted(a.hex() for a in all_addresses(info))})
 
     async def host_up(i):
         await sim.sleep_until(case["hosts"][i]["up"])
-        h = sim.make_host("H%d" % i, "10.0.0.%d" % (i + 1))
+        h = make_host(sim, "H%d" % i, i, stack, listen)
         h.idx = i
         hosts[i] = h
         await h.zc.async_wait_for_start()
+        h.by_fam = {}
+        for tr in h.transports:  # (nothing is sent before the engine has started)
+            tr.sendto = functools.partial(sendto, h, tr)
+            if tr is not h.ltransport:
+                h.by_fam[6 if tr.sock.family == socket.AF_INET6 else 4] = tr
         hstate[i] = "up"
         trace.append([now(), "up", i])
         api_times.append(now())
@@ -523,16 +768,22 @@ def run_case(case):
                 break
             await asyncio.sleep(0)
         if kind == "browse":
-            h, ty = op[2], op[3]
+            h, tys = op[2], (op[3] if isinstance(op[3], list) else [op[3]])
+            opt = op[4] if len(op) > 4 and isinstance(op[4], dict) else {}
             if hstate[h] != "up":
                 skipped.append(op)
                 return
-            b = len(browsers)
-            lst = L(b, hosts[h].zc)
-            browsers.append({"host": h, "ty": ty, "listener": lst, "t": now()})
-            trace.append([now(), "browse", b])
+            lst = L(hosts[h].zc)
+            for ty in tys:
+                b = len(browsers)
+                lst.b_of[ty] = b
+                browsers.append({"host": h, "ty": ty, "listener": lst, "t": now(), "first": ty == tys[0]})
+                trace.append([now(), "browse", b])
             api_times.append(now())
-            browsers[b]["br"] = AsyncServiceBrowser(hosts[h].zc, [TYPES[ty]], listener=lst)
+            cases = opt.get("cases") or [opt.get("case", 0)] * len(tys)
+            for b, k in zip(sorted(lst.b_of.values()), cases):
+                browsers[b]["tcase"] = k & 1
+            real_browsers.append({"host": h, "br": AsyncServiceBrowser(hosts[h].zc, [spell_type(ty, k) for ty, k in zip(tys, cases)], listener=lst)})
             return
         if kind == "close":
             h = op[2]
@@ -542,6 +793,7 @@ def run_case(case):
             for i, s in enumerate(svcs):
                 if s["owner"] == h and sstate[i] == "registered":
                     trace.append([now(), "unreg", i])
+                    close_unregs.append([now(), i, h])
                     sstate[i] = "idle"
             trace.append([now(), "close", h])
             api_times.append(now())
@@ -559,7 +811,13 @@ def run_case(case):
                 skipped.append(op)
                 return
             ver = len(versions[i])
-            info = make_info(i, ver)
+            if cur_info[i] is not None and svcs[i].get("reuse"):
+                # the application registers the SAME ServiceInfo object again after changing a plain attribute: the records the
+                # object cached for its previous registration must not be what it announces and answers with now
+                info = cur_info[i]
+                info.port = 8000 + 10 * i + ver
+            else:
+                info = make_info(i, ver)
             sstate[i] = "registering"
             ev = [now(), "reg?", i]
             trace.append(ev)
@@ -574,24 +832,28 @@ def run_case(case):
             ev.append(now())
             sstate[i] = "registered"
             cur_info[i] = info
-            advertise(i, info)
+            advertise(i, info, "reg")
         elif kind == "update":
             if sstate[i] != "registered":
                 skipped.append(op)
                 return
-            if len(op) > 3 and isinstance(op[3], dict):  # update with new TTLs: [t, "update", i, {"other_ttl": ..}]
-                svcs[i].update(op[3])
-            info = make_info(i, len(versions[i]))
+            rev = None
+            if len(op) > 3 and isinstance(op[3], dict):  # update with new TTLs / an explicit revision: [t, "update", i, {"other_ttl": .., "rev": r}]
+                svcs[i].update({k: v for k, v in op[3].items() if k != "rev"})
+                rev = op[3].get("rev")
+            # "rev": the port / TXT of revision r instead of a fresh one -- an application that goes back to an earlier value
+            info = make_info(i, len(versions[i]) if rev is None else rev)
             trace.append([now(), "upd", i])
             api_times.append(now())
             cur_info[i] = info
-            advertise(i, info)
+            advertise(i, info, "upd")
             await zc.async_update_service(info)
         elif kind == "unregister":
             if sstate[i] != "registered":
                 skipped.append(op)
                 return
             trace.append([now(), "unreg", i])
+            unreg_calls.append([now(), i])
             api_times.append(now())
             sstate[i] = "idle"
             await zc.async_unregister_service(cur_info[i])
@@ -618,13 +880,13 @@ def run_case(case):
             trace.append([now(), "obs"])
             out["observations"].append({"t": now(), "final": [
                 {"b": b, "host": br["host"], "ty": br["ty"], "closed": hstate[br["host"]] != "up",
-                 "live": sorted(names[n.lower()] for n in br["listener"].live if n.lower() in names),
-                 "bad": list(br["listener"].bad)} for b, br in enumerate(browsers)]})
+                 "live": sorted(names[n.lower()] for n, bb in br["listener"].live.items() if bb == b and n.lower() in names),
+                 "bad": list(br["listener"].bad) if br["first"] else []} for b, br in enumerate(browsers)]})
         out["endT"] = now()
         out["final"] = out["observations"][-1]["final"]
         out["registered"] = [i for i in range(len(svcs)) if sstate[i] == "registered"]
         out["inflight"] = [i for i in range(len(svcs)) if sstate[i] == "registering"]
-        for br in browsers:
+        for br in real_browsers:
             if hstate[br["host"]] == "up":
                 await br["br"].async_cancel()
         for i, h in enumerate(hosts):
@@ -632,17 +894,34 @@ def run_case(case):
                 hstate[i] = "closed"
                 await h.zc._async_close()
 
-    sim.run(main)
+    ptap = None
+    if proj:
+        from . import c07proj
+
+        ptap = c07proj.ProjTap(sim, trace)
+        ptap.install()
+    try:
+        sim.run(main)
+    finally:
+        if ptap is not None:
+            ptap.remove()
+    if ptap is not None and not any(e[1].startswith("regfail") or e[1] == "reg?" for e in trace):
+        # (positions in the block log refer to the raw trace; a run with a refused registration has entries that are filtered out below)
+        out["proj"] = ptap.snapshot(hosts)
     out["trace"] = [e for e in trace if not e[1].startswith("regfail") and e[1] != "reg?"]
     out["regfail"] = [e for e in trace if e[1].startswith("regfail") or e[1] == "reg?"]
     out["lookups"] = lookups
     out["versions"] = versions
     out["skipped"] = skipped
+    out["unreg_calls"] = unreg_calls
+    out["close_unregs"] = close_unregs
+    out["refused"] = net.refused
+    out["ignored"] = ignored
     out["errors"] = [str(e.get("exception") or e.get("message"))[:200] for e in sim.errors]
     out["ndeliveries"] = net.n
     out["targets"] = net.targets
     out["dropped"] = net.dropped
-    out["browsers"] = [{"host": b["host"], "ty": b["ty"], "t": b["t"]} for b in browsers]
+    out["browsers"] = [{"host": b["host"], "ty": b["ty"], "t": b["t"], "tcase": b.get("tcase", 0)} for b in browsers]
     out["nsend"] = len(net.log)
     out["datagrams"] = [[t, src, ip, port, data.hex()] for (t, src, ip, port, data) in net.log]
     return out
@@ -952,8 +1231,10 @@ def monitors(tr, endT, cfg=CFG):
             if k == 0:
                 ok = any(sd[2] == h and sd[4] is None and lo <= sd[0] <= hi and qm_item(sd[5], ty, h, sd[0], True) for sd in sends)
             else:
+                # a heard question suppresses the host's own if its known answers are among the host's own when the own question is
+                # due (RFC 6762 7.3) - up to dupQ later, so `received` is taken at the end of the window for the heard alternative
                 ok = any(sd[2] == h and sd[4] is None and lo - cfg["dupQ"] <= sd[0] <= hi and qm_item(sd[5], ty, h, sd[0], False) for sd in sends) \
-                    or any(e[4] == h and e[5] and lo - cfg["dupQ"] <= e[0] <= hi and qm_item(e[6], ty, h, e[0], False) for e in dlvs)
+                    or any(e[4] == h and e[5] and lo - cfg["dupQ"] <= e[0] <= hi and qm_item(e[6], ty, h, hi, False) for e in dlvs)
             if not ok:
                 bad["K3"].append(["query-opportunity-missing", t, k, br])
 
@@ -973,7 +1254,7 @@ def monitors(tr, endT, cfg=CFG):
                 if s[0] == h and s[1] == it[1] and s not in it[2] and reg_since(s, a - cfg["respBefore"], y_incl=a + cfg["respAfter"]):
                     ok = any(sd[2] == h and a - cfg["respBefore"] <= sd[0] <= a + cfg["respAfter"]
                              and (sd[4] is None or (it[3] and sd[4] == src))
-                             and pos_full(sd[5], s) for sd in sends)
+                             and (ptr_of(sd[5], s) or 0) > 0 for sd in sends)
                     if not ok:
                         bad["K4"].append(["query-unanswered", a, h, s, it[3]])
 
@@ -1039,15 +1320,20 @@ def monitors(tr, endT, cfg=CFG):
                     # of the new 75 % point — on either side; 30 s late: kept schedule + two passes each at most 10 s late);
                     # it started later, or so shortly before that the 75 % point falls into its start-up phase (no refresh pass
                     # runs then): its 3rd / 4th start-up question (the record is stale by then and is not listed)
-                    if tb + cfg["qHi"] + cfg["qOff"][3] + cfg["refreshEarly"] <= x[0] + cfg["refresh1"] * e_s:
+                    if tb + cfg["qHi"] + cfg["qOff"][3] + cfg["refreshEarly"] + cfg["dupQ"] <= x[0] + cfg["refresh1"] * e_s:
                         due = x[0] + (cfg["refresh2"] if second else cfg["refresh1"]) * e_s
-                        a, hi = due - cfg["refreshEarly"] - cfg["dupQ"], due + cfg["refreshWin"]
+                        # (2 * dupQ: a heard question suppresses, and the cached record may be up to 999 ms older than this
+                        # delivery - the listener does not parse a datagram byte-identical to the one parsed < 1 s ago)
+                        a, hi = due - cfg["refreshEarly"] - 2 * cfg["dupQ"], due + cfg["refreshWin"]
                     else:
                         off = cfg["qOff"][3 if second else 2]
                         a, hi = tb + cfg["qLo"] + off - cfg["dupQ"], tb + cfg["qHi"] + off
                     if hi > endT:
                         continue
-                    if any(e[4] == h and ptr_of(e[6], sv) is not None and x[0] < e[0] <= hi for e in dlvs):
+                    # the record is still the last PTR(s) the host processed, in trace order (a record processed later in the
+                    # same millisecond supersedes: lastPtrIs)
+                    upto = [e for e in dlvs if e[4] == h and ptr_of(e[6], sv) is not None and e[0] <= hi]
+                    if not upto or upto[-1] != x:
                         continue
                     ok = any(sd[2] == h and sd[4] is None and a <= sd[0] <= hi and asks_without(sd[5], ty, sv) for sd in sends) \
                         or any(e[4] == h and e[5] and a <= e[0] <= hi and asks_without(e[6], ty, sv) for e in dlvs)
@@ -1119,7 +1405,7 @@ def oracle(case, obs):
                 miss = sorted(set(want) - set(got))
                 if extra and ("x", f["b"], extra[0]) not in seen:
                     seen.add(("x", f["b"], extra[0]))
-                    cause = resurrection_cause(case, obs, extra[0])
+                    cause = resurrection_cause(case, obs, extra[0], f["host"])
                     v.append(("C07:not-removed:" + cause,
                               "browser %d on H%d still reports s%d %d ms after the last change although it is not registered (%s)"
                               % (f["b"], f["host"], extra[0], after, cause)))
@@ -1165,15 +1451,124 @@ def oracle(case, obs):
             v.append(("C07:lookup-from-added-failed" + (":" + cause if cause else ""),
                       "lookup of s%d from the Added callback at %d returned %s%s" % (s, lk["t0"], lk["ok"], " (%s)" % cause if cause else "")))
             continue
-        vs = [x for x in obs["versions"][s] if x["t"] <= lk["t1"]]
+        # "resolves the advertised host, port, TXT and addresses": the version that is advertised while the lookup runs.  A version
+        # replaced by an `update` stays acceptable for UPDATE_GRACE_MS after the update call (the three announcements of the new
+        # records leave within 450 ms, arrive within 100 ms more, and replace the cached ones: cache-flush bit); an older one is wrong
+        allv = obs["versions"][s]
+        # (only an `update` has a grace: a version that was unregistered -- Removed -- before the next registration is never acceptable
+        # for a lookup from the new registration's Added)
+        vs = [x for k, x in enumerate(allv) if x["t"] <= lk["t1"] and (
+            k + 1 == len(allv) or allv[k + 1]["t"] > lk["t1"]
+            or (allv[k + 1].get("kind", "upd") == "upd" and allv[k + 1]["t"] + UPDATE_GRACE_MS >= lk["t0"]))]
         # addresses belong to the host name: the lookup returns the service's own addresses, possibly together with addresses that
         # other services advertised for the same host name
-        host_addrs = {ad for vv in obs["versions"] for x in vv if x["server"] == lk["server"] for ad in x["addrs"]}
+        host_addrs = {ad for vv in obs["versions"] for x in vv if x["server"].lower() == (lk["server"] or "").lower() for ad in x["addrs"]}
         if not any(x["port"] == lk["port"] and x["server"] == lk["server"] and x["txt"] == lk["txt"]
                    and set(x["addrs"]) <= set(lk["addrs"]) <= host_addrs for x in vs):
-            v.append(("C07:lookup-from-added-wrong", "lookup of s%d from the Added callback at %d resolved port %s server %s txt %s addrs %s, advertised %s"
-                      % (s, lk["t0"], lk["port"], lk["server"], lk["txt"], lk["addrs"], vs)))
+            cause = lookup_wrong_cause(case, obs, lk, vs, allv)
+            v.append(("C07:lookup-from-added-wrong" + (":" + cause if cause else ""),
+                      "lookup of s%d from the Added callback at %d (until %d) resolved port %s server %s txt %s addrs %s, advertised then %s%s"
+                      % (s, lk["t0"], lk["t1"], lk["port"], lk["server"], lk["txt"][:40], lk["addrs"],
+                         [dict(x, txt=x["txt"][:40]) for x in vs], " (%s)" % cause if cause else "")))
     return v
+
+
+UPDATE_GRACE_MS = 1000
+
+
+def records_seen(obs, host, t_hi):
+    """(t, record) for every record of every response datagram handed to `host` up to t_hi -- from the harness's own delivery
+    log and the raw datagrams, not from the implementation's cache"""
+    from zeroconf import DNSIncoming
+
+    out = []
+    memo = obs.setdefault("_parsed", {})
+    for e in obs["trace"]:
+        if e[1] == "dlv" and e[4] == host and e[0] <= t_hi:
+            recs = memo.get(e[2])
+            if recs is None:
+                m = DNSIncoming(bytes.fromhex(obs["datagrams"][e[2]][4]))
+                recs = memo[e[2]] = [] if (not m.valid or m.is_query()) else m.answers()
+            out.extend((e[0], r) for r in recs)
+    return out
+
+
+def shadow_cache(obs, host, name, t_hi):
+    """which SRV / TXT records of instance `name` are alive in `host`'s cache at t_hi, and when each was last received -- computed
+    from the deliveries the host's listener PROCESSED (`obs["ignored"]` left out), with the cache rules of RFC 6762 10.2 as the library
+    implements them: a record is refreshed in place when it arrives again; a record with TTL 0 is removed; when a datagram carries a
+    cache-flush record of a name / type, every OTHER cached record of that name / type received more than 1000 ms ago expires one
+    second later; a record expires TTL seconds after it was last received.  -> {("srv", port) | ("txt", hex): last received}"""
+    from zeroconf import DNSIncoming
+    from zeroconf._dns import DNSService, DNSText
+
+    ign = {x[0] for x in obs.get("ignored", [])}
+    cache = {}  # key -> [last received, expires at]
+    memo = obs.setdefault("_parsed", {})
+    for pos, e in enumerate(obs["trace"]):
+        if e[1] != "dlv" or e[4] != host or e[0] > t_hi or pos in ign:
+            continue
+        recs = memo.get(e[2])
+        if recs is None:
+            m = DNSIncoming(bytes.fromhex(obs["datagrams"][e[2]][4]))
+            recs = memo[e[2]] = [] if (not m.valid or m.is_query()) else m.answers()
+        t = e[0]
+        mine = [(("srv", r.port) if isinstance(r, DNSService) else ("txt", r.text.hex()), r) for r in recs
+                if isinstance(r, (DNSService, DNSText)) and r.name.lower() == name]
+        for key, r in mine:  # refresh / insert / remove first (`async_updates_from_response` resets the TTL of a known record in its loop)
+            if r.ttl == 0:
+                cache.pop(key, None)
+            else:
+                cache[key] = [t, t + 1000 * r.ttl]
+        for kind in {key[0] for key, r in mine if r.unique and r.ttl > 0}:  # then the cache-flush rule for the types that had a unique record
+            present = {key for key, r in mine}
+            for key, v in cache.items():
+                if key[0] == kind and key not in present and t - v[0] > 1000:
+                    v[0], v[1] = t, t + 1000
+    return {key: v[0] for key, v in cache.items() if v[1] > t_hi}
+
+
+def lookup_wrong_cause(case, obs, lk, vs, allv):
+    """classify a wrong lookup result from the INPUT side (what reached the host), never from the library's state.
+
+    success-without-txt: `async_request` returned True with an empty TXT although every advertised version has a non-empty one, and
+    no unexpired TXT record of the instance had reached the host when it returned (TXT and SRV/address travelled in different
+    datagrams, or the TXT had expired before the SRV): `ServiceInfo._is_complete` tests `self.text is not None`, and `text` is
+    `b''` from the constructor on -- a lookup is "complete" as soon as it knows an address.  Everything else about the result must
+    still be right."""
+    from zeroconf._dns import DNSService, DNSText
+
+    bh = obs["browsers"][lk["b"]]["host"]
+    name = svc_name(lk["s"], case["svcs"][lk["s"]]["ty"]).lower()
+    old = [k for k, x in enumerate(allv) if x not in vs and x["t"] <= lk["t1"] and x["port"] == lk["port"] and x["server"] == lk["server"]
+           and x["txt"] == lk["txt"]]
+    if old:
+        # the result is exactly a superseded version k.  Known finding F3 when -- by the harness's own account of what the host
+        # PROCESSED -- the records of version k and of the advertised version are both alive in its cache when the lookup ends and
+        # the advertised one was received more recently: `_load_from_cache` takes the LAST INSERTED unexpired SRV / TXT instead.
+        # How both can be alive: RFC 6762 10.2 flushes nothing younger than one second, so the old record survives when it
+        # overtook the update on the link, or when a query answer refreshed it less than a second before the update and the
+        # update's third announcement -- a verbatim repeat of the second -- was dropped by the duplicate-packet guard
+        k = old[-1]
+        cur = vs[-1] if vs else None
+        if cur is None:
+            return ""
+        alive = shadow_cache(obs, bh, name, lk["t1"])
+        need = []
+        if allv[k]["port"] != cur["port"]:
+            need.append((("srv", allv[k]["port"]), ("srv", cur["port"])))
+        if allv[k]["txt"] != cur["txt"]:
+            need.append((("txt", allv[k]["txt"]), ("txt", cur["txt"])))
+        if need and all(ko in alive and kc in alive and alive[kc] > alive[ko] for ko, kc in need):
+            return "last-inserted-record-preferred-to-the-most-recently-received"
+        return ""
+    if lk["txt"] == "" and all(x["txt"] for x in allv) and any(
+            x["port"] == lk["port"] and x["server"] == lk["server"] for x in vs):
+        held_txt = [(t, r) for (t, r) in records_seen(obs, bh, lk["t1"]) if isinstance(r, DNSText) and r.name.lower() == name]
+        # the last TXT handed over decides (a goodbye or an expired one leaves the host without a TXT)
+        if not held_txt or held_txt[-1][1].ttl == 0 or held_txt[-1][0] + 1000 * held_txt[-1][1].ttl <= lk["t1"]:
+            return "success-without-txt"
+    return ""
 
 
 def not_added_cause(case, obs, b, s):
@@ -1181,6 +1576,11 @@ def not_added_cause(case, obs, b, s):
     the expired record, and the answer to the browser's question finds the unpurged entry (`async_get_unique`), refreshes it and is
     reported to the browser as a refresh of a known record, never as Added"""
     br = obs["browsers"][b]
+    if br.get("tcase", 0) != case["svcs"][s].get("case", 0) & 1:
+        # known finding: `_ServiceBrowserBase` intersects its set of types, as spelled by the application, with the owner name of the
+        # pointer record as spelled on the wire -- a browser for `_a._tcp.local.` never reports an instance registered under
+        # `_A._tcp.local.` (the responder, the cache and the question history all compare case-insensitively)
+        return "type-spelled-in-another-case"
     last = None
     later = False
     for e in obs["trace"]:
@@ -1224,7 +1624,70 @@ def lookup_failure_cause(case, obs, lk):
     return ""
 
 
-def resurrection_cause(case, obs, s):
+def cut_by_close(case, obs, s, tu):
+    """the known finding, decided from the INPUT alone: service s was withdrawn at tu by an explicit `async_unregister_service` call
+    (this harness never awaits the task it returns), its host was closed at tc with tu <= tc <= tu + 250 (before the third goodbye
+    was due), and nothing was registered on the host at the close (`async_close` then has no goodbye of its own to send, so `_close`
+    sets `done` at once and the pending goodbyes of the unregister become no-ops).  Returns tc or None.  A service that is
+    withdrawn BY the close (still registered when `async_close` is called) is never covered: its goodbyes are the close's own"""
+    if [tu, s] not in [list(x) for x in obs.get("unreg_calls", [])]:
+        return None
+    owner = case["svcs"][s]["owner"]
+    for e in obs["trace"]:
+        if e[1] == "close" and e[2] == owner and tu <= e[0] <= tu + 250:
+            if not any(c[0] == e[0] and c[2] == owner for c in obs.get("close_unregs", [])):
+                return e[0]
+    return None
+
+
+def guard_suppressed(case, obs, host):
+    """the deliveries to `host` that its duplicate-packet guard ignores, recomputed from the harness's own delivery log (never from
+    the library's state): every receiving socket has its own listener object, and a listener ignores a datagram that is
+    byte-identical to the previous one IT processed less than 1000 ms ago, unless that is a query with a QU question.
+    Returns the set of positions (index into obs["trace"]) of ignored `dlv` events"""
+    from zeroconf import DNSIncoming
+
+    listen = bool(case.get("listen"))
+    last = {}  # socket -> (bytes, time)
+    out = set()
+    for i, e in enumerate(obs["trace"]):
+        if e[1] != "dlv" or e[4] != host:
+            continue
+        data = obs["datagrams"][e[2]][4]
+        fam = 6 if ":" in obs["datagrams"][e[2]][2] else 4
+        sock = "listen" if (listen and e[5]) else fam
+        prev = last.get(sock)
+        if prev is not None and prev[0] == data and e[0] - 1000 < prev[1]:
+            m = DNSIncoming(bytes.fromhex(data))
+            if not (m.is_query() and m.has_qu_question()):
+                out.add(i)
+                continue
+        last[sock] = (data, e[0])
+    return out
+
+
+def repeats_ignored_on_other_socket(case, obs, s, host):
+    """known finding, decided from the input: `host` has more than one receiving socket (a dedicated listen socket, or one per address
+    family).  After the unregister it processed a positive PTR(s) on one socket (a unicast answer on the respond socket, sent before
+    the unregister and delayed on the link) later than the first goodbye on another, and every later goodbye it was handed was a
+    verbatim repeat that the duplicate guard of the socket it arrived on ignored -- that guard's state is per socket, so it never
+    saw the answer in between.  Nothing is lost on the link; the instance stays Added until its TTL runs out"""
+    if not (case.get("listen") or case.get("stack", "4") == "46"):
+        return False
+    ignored = guard_suppressed(case, obs, host)
+    tr = obs["trace"]
+    last_pos = None
+    for i, e in enumerate(tr):
+        if e[1] == "dlv" and e[4] == host and i not in ignored and any(it[0] == "p" and it[1] == s and it[2] > 0 for it in e[6]):
+            last_pos = i
+    if last_pos is None:
+        return False
+    later_byes = [i for i, e in enumerate(tr) if i > last_pos and e[1] == "dlv" and e[4] == host
+                  and any(it[0] == "p" and it[1] == s and it[2] == 0 for it in e[6])]
+    return bool(later_byes) and all(i in ignored for i in later_byes)
+
+
+def resurrection_cause(case, obs, s, host=None):
     """attribute a never-removed service to the positive PTR sent after its withdrawal (C08's D5 / D6)"""
     tr = obs["trace"]
     unreg = [e[0] for e in tr if e[1] == "unreg" and e[2] == s]
@@ -1238,9 +1701,10 @@ def resurrection_cause(case, obs, s):
         if i > pos_unreg and e[1] == "send" and any(it[0] == "p" and it[1] == s and it[2] > 0 for it in e[5]):
             late.append(e[0])
     if not late:
-        owner = case["svcs"][s]["owner"]
-        if any(e[1] == "close" and e[2] == owner and tu <= e[0] <= tu + 250 for e in tr):
+        if cut_by_close(case, obs, s, tu) is not None:
             return "goodbyes-cut-by-close"
+        if host is not None and repeats_ignored_on_other_socket(case, obs, s, host):
+            return "goodbye-repeats-ignored-by-the-other-sockets-duplicate-guard"
         return "no-positive-ptr-after-unregister"
     if any(t - r in (575, 800) for t in late for r in regt) or any(t - u[0] in (225, 450) for t in late for u in tr if u[1] == "upd" and u[2] == s):
         return "D6-announcement-after-unregister"
@@ -1251,9 +1715,66 @@ def resurrection_cause(case, obs, s):
 # running
 
 
-def check_case(case, res, ctx, tag, lean_jobs):
+KNOWN_SIGS = {"C07:goodbyes-cut-by-close", "C07:not-removed:goodbyes-cut-by-close", "C07:lookup-from-added-wrong:success-without-txt",
+              "C07:not-added:type-spelled-in-another-case", "C07:lookup-from-added-wrong:last-inserted-record-preferred-to-the-most-recently-received",
+              "C07:not-removed:goodbye-repeats-ignored-by-the-other-sockets-duplicate-guard"}
+
+
+def train_of(obs, t, h, dst_of=None):
+    """raw datagrams host h put on the link at instant t (to the destination of datagram `dst_of`, if given)"""
+    ds = [e for e in obs["trace"] if e[1] == "send" and e[0] == t and e[2] == h]
+    if dst_of is not None:
+        ds = [e for e in ds if e[4] == dst_of]
+    return ds
+
+
+def train_complete(case, obs, t, h, s, dst="any"):
+    """do the response datagrams host h sent at instant t (one message split by `DNSOutgoing.packets()`) together carry a positive
+    PTR of service s, its SRV, its TXT and an address record of the SRV target?"""
+    from zeroconf import DNSIncoming
+    from zeroconf._dns import DNSAddress, DNSPointer, DNSService, DNSText
+
+    name = svc_name(s, case["svcs"][s]["ty"]).lower()
+    for grp in ({e[4] for e in train_of(obs, t, h)} if dst == "any" else [dst]):
+        ptr = srv = txt = False
+        targets, addrs = set(), set()
+        for e in train_of(obs, t, h):
+            if e[4] != grp:
+                continue
+            m = DNSIncoming(bytes.fromhex(obs["datagrams"][e[3]][4]))
+            if not m.valid or m.is_query():
+                continue
+            for r in m.answers():
+                if isinstance(r, DNSPointer) and r.alias.lower() == name and r.ttl > 0:
+                    ptr = True
+                elif isinstance(r, DNSService) and r.name.lower() == name:
+                    srv = True
+                    targets.add(r.server.lower())
+                elif isinstance(r, DNSText) and r.name.lower() == name:
+                    txt = True
+                elif isinstance(r, DNSAddress):
+                    addrs.add(r.name.lower())
+        if ptr and srv and txt and targets & addrs and len([e for e in train_of(obs, t, h) if e[4] == grp]) > 1:
+            return True
+    return False
+
+
+def k4_answered_by_train(case, obs, tr, w):
+    """K4 witness [query-unanswered, a, h, s, qu]: is there, in K4's window, a message of several packets from h -- multicast, or
+    unicast to anybody if the question was QU -- that is complete for s?"""
+    _, a, h, s, qu = w
+    askers = {e[3] for e in obs["trace"] if e[1] == "dlv" and e[0] == a and e[4] == h
+              and any(it[0] == "q" and it[1] == s[1] and bool(it[3]) == bool(qu) and s[2] not in it[2] for it in e[6])}
+    for e in obs["trace"]:
+        if e[1] == "send" and e[2] == h and a - CFG["respBefore"] <= e[0] <= a + CFG["respAfter"] and (e[4] is None or (qu and e[4] in askers)):
+            if any(it[0] == "p" and it[1] == s[2] and it[2] > 0 for it in e[5]) and train_complete(case, obs, e[0], h, s[2], e[4]):
+                return True
+    return False
+
+
+def check_case(case, res, ctx, tag, lean_jobs, proj=False):
     """run + oracle + Python monitors; queue the Lean evaluation"""
-    obs = run_case(case)
+    obs = run_case(case, proj)
     res.evaluations += 1
     tr = norm_trace(case, obs)
     endT = obs["endT"]
@@ -1261,6 +1782,7 @@ def check_case(case, res, ctx, tag, lean_jobs):
     mon = monitors(tr, endT)
     mon_all = mon
     conc = conclusion(tr, endT)
+    conc_all = conc
     brief = {"case": case, "tag": tag}
     failed0 = sorted(k for k, w in mon.items() if w)
     for sig, what in vio:
@@ -1273,20 +1795,52 @@ def check_case(case, res, ctx, tag, lean_jobs):
         res.count("loop-errors", len(obs["errors"]))
         if len(res.notes) < 5:
             res.notes.append("loop exception handler: %s" % obs["errors"][:2])
-    # review F2 / known finding: a close less than 250 ms after an unregister drops that unregister's remaining goodbyes.  On such
-    # a run "K2: goodbye missing" is the library's behaviour, reported under its own signature, not a broken tie
-    cut = [w for w in mon["K2"] if w[0] == "goodbye-missing" and any(
-        e[1] == "close" and e[2] == w[3][0] and w[1] <= e[0] <= w[1] + 250 for e in tr)]
+    # known finding (review F2; second review, point 2: decided from the input, see `cut_by_close`): a close less than 250 ms after
+    # an un-awaited unregister with nothing else registered drops that unregister's remaining goodbyes.  Only K2 witnesses of
+    # exactly that shape -- the goodbye of an explicitly unregistered service that was due at or after such a close -- are the
+    # library's known behaviour; a missing goodbye of a service withdrawn by the close itself is a contract violation like any other
+    cut = []
+    for w in mon["K2"]:
+        if w[0] == "goodbye-missing":
+            tc = cut_by_close(case, obs, w[3][2], w[1])
+            if tc is not None and w[1] + w[2] >= tc:
+                cut.append(w)
     if cut:
         res.violate("C07:goodbyes-cut-by-close",
-                    "unregister at %d ms, close of the same host %s: the goodbye due at +%d ms is never sent (async_send is a no-op once done)"
+                    "unregister at %d ms (not awaited), close of the same host at %s with nothing else registered: the goodbye due at +%d ms is never "
+                    "sent (async_send is a no-op once done)"
                     % (cut[0][1], [e[0] for e in tr if e[1] == "close" and e[2] == cut[0][3][0]], cut[0][2]), brief)
         mon = dict(mon, K2=[w for w in mon["K2"] if w not in cut])
         res.count("goodbyes-cut-by-close")
+    # messages of more than one datagram (second review, escape 5): `full` is a per-datagram flag; a response that does not fit 1460
+    # bytes cannot carry every PTR together with its SRV / TXT / address.  K6f and K4 witnesses are dropped when the packets the
+    # host sent at the same instant to the same destination (one `async_send`) carry the missing records: complete per MESSAGE
+    if mon["K6f"] or mon["K4"]:
+        k6f = [w for w in mon["K6f"] if not train_complete(case, obs, w[1], w[2], w[3][2])]
+        k4 = [w for w in mon["K4"] if not k4_answered_by_train(case, obs, tr, w)]
+        if len(k6f) != len(mon["K6f"]) or len(k4) != len(mon["K4"]):
+            res.count("runs-with-multi-packet-messages(completeness judged per message)")
+            mon = dict(mon, K6f=k6f, K4=k4)
+    if case.get("listen") or case.get("stack", "4") == "46":
+        # a host with two receiving sockets has two listener objects, each with its own duplicate-packet guard: whether a delivery is
+        # PROCESSED depends on the socket it arrives on, which the link model (one receive path per host; an ignored verbatim repeat is
+        # a no-op, C16) cannot express.  The contracts are not judged on these runs; the property's own sentence (stage O) is
+        res.count("runs-on-hosts-with-two-listeners(stage O only)")
+        mon = {k: [] for k in mon}
+        conc = []
+    # known finding "type spelled in another case": the browser does not report (live = false) what its host's cache holds
+    k5 = [w for w in mon["K5"] if not (w[4] is False and w[3][2] < len(case["svcs"])
+                                       and obs["browsers"][w[2][2]].get("tcase", 0) != case["svcs"][w[3][2]].get("case", 0) & 1)]
+    if len(k5) != len(mon["K5"]):
+        res.count("runs-with-a-type-spelled-in-two-cases")
+        mon = dict(mon, K5=k5)
     failed = sorted(k for k, w in mon.items() if w)
     for k in failed:
         res.count("contract-violated:" + k)
-    if failed and not vio:
+    # a contract violation is "explained" (not a broken tie) only by a FRESH violation of the property on the same run; a known
+    # finding explains nothing beyond the witnesses removed above (second review, gating defect i)
+    fresh_vio = [x for x in vio if x[0] not in KNOWN_SIGS]
+    if failed and not fresh_vio:
         # the real trace breaks a hypothesis of the theorem although the property's sentence holds on it
         res.disagree("contract", brief, {"violated": {k: mon[k][:2] for k in failed}}, "K1..K7 hold")
     if not failed and conc and not vio:
@@ -1298,8 +1852,12 @@ def check_case(case, res, ctx, tag, lean_jobs):
     late_hosts = sum(1 for h in case["hosts"] if h["up"] > 0)
     sig = (len(case["hosts"]), len(case["svcs"]), case["types"], len(obs["browsers"]), late_hosts > 0, obs["dropped"] is not None,
            case["net"]["mode"], case["net"]["dups"], "close" in kinds, "upd" in kinds, "unreg" in kinds, "rem" in kinds,
-           len(obs["regfail"]) > 0)
+           len(obs["regfail"]) > 0, case.get("stack", "4") + ("L" if case.get("listen") else ""),
+           any(sv.get("case") for sv in case["svcs"]) or any(b.get("tcase") for b in obs["browsers"]),
+           any(isinstance(o[3], list) and len(o[3]) > 1 for o in case["ops"] if o[1] == "browse"),
+           _has_train(obs))
     res.nontriv(json.dumps(sig))
+    res.count("stack=" + sig[13])
     res.count("hosts=%d" % len(case["hosts"]))
     res.count("dropped" if obs["dropped"] is not None else "no-drop")
     res.count("lookups", len(obs["lookups"]))
@@ -1309,14 +1867,22 @@ def check_case(case, res, ctx, tag, lean_jobs):
     if len(res.samples) < 3:
         res.sample({"tag": tag, "hosts": len(case["hosts"]), "events": len(tr), "deliveries": obs["ndeliveries"], "dropped": obs["dropped"],
                     "final": [{k: f[k] for k in ("b", "host", "ty", "live")} for f in obs["final"]], "registered": obs["registered"]})
-    lean_jobs.append((brief, tr, endT, mon_all, conc))
+    lean_jobs.append((brief, tr, endT, mon_all, conc_all))
     return obs
 
 
 def lean_compare(res, lean_jobs):
     lines = [lean_line(tr, endT) for (_, tr, endT, _, _) in lean_jobs]
     try:
-        outs = C.run_driver(lines)
+        # the driver is a pure line-by-line function: four processes on interleaved quarters of the lines (about 0.03 s per trace)
+        from concurrent.futures import ThreadPoolExecutor
+
+        k = 4 if len(lines) >= 40 else 1
+        with ThreadPoolExecutor(k) as ex:
+            parts = list(ex.map(C.run_driver, [lines[j::k] for j in range(k)]))
+        outs = [None] * len(lines)
+        for j, part in enumerate(parts):
+            outs[j::k] = part
     except C.DriverUnavailable as ex:
         res.notes.append("driver unavailable: %s" % ex)
         return
@@ -1341,6 +1907,37 @@ def lean_compare(res, lean_jobs):
             res.disagree("lean-monitors", brief, py, out)
 
 
+def proj_report(res, proj_jobs):
+    """side report (statistics, never a verdict): the projection hypotheses of `C07_convergence_from_models_partial` evaluated by the
+    driver on the block logs of the un-dropped run of every scenario (hosts with one IPv4 socket)"""
+    from concurrent.futures import ThreadPoolExecutor
+
+    from . import c07proj
+
+    if not proj_jobs:
+        return
+    lines = [j[3] for j in proj_jobs]
+    try:
+        k = 4 if len(lines) >= 16 else 1
+        with ThreadPoolExecutor(k) as ex:
+            parts = list(ex.map(C.run_driver, [lines[j::k] for j in range(k)]))
+    except C.DriverUnavailable as ex:
+        res.notes.append("projection report: driver unavailable: %s" % ex)
+        return
+    outs = [None] * len(lines)
+    for j, part in enumerate(parts):
+        outs[j::k] = part
+    shown = {}
+    for (tag, cmd, key, _line), ans in zip(proj_jobs, outs):
+        if not c07proj.tally(res, cmd, ans):
+            failing = " ".join(t for t in (ans or "").split() if t.endswith("=0") or t.startswith("rej=") and not t.endswith("-")) or (ans or "")[:40]
+            if shown.setdefault((cmd, failing), 0) < 1:
+                shown[(cmd, failing)] += 1
+                if len([n for n in res.notes if n.startswith("projection report")]) < 12:
+                    res.notes.append("projection report (statistics only): %s %s %s -> %s" % (cmd, tag, key, failing))
+    res.count("proj:lines", len(lines))
+
+
 def drop_choices(rng, n, k):
     if n <= 0:
         return []
@@ -1360,21 +1957,33 @@ def run_inner(ctx):
     n_sweep = 0 if not thorough else max(1, n_scen // 10)  # scenarios whose every delivery / datagram is dropped in turn
     drops_per = 6 if not thorough else 20
     dgram_per = 4 if not thorough else 10
-    # the theorem is about the Lean monitors: thorough runs EVERY trace through them; quick (budget) a uniform sample of the runs
-    # plus all corpus cases and every run on which a Python monitor, the conclusion or the oracle failed
-    lean_frac = 1.0 if thorough else 0.3
+    # the theorem is about the Lean monitors: both tiers run EVERY trace through them (second review, point 7; measured: 1 300 quick
+    # traces cost about 40 s of zcdriver, 12-15 s on four processes).  Only the widened search (three times the scenarios, entered when
+    # the tree already failed T or P or drifted) samples: 30 % + all corpus cases + every run on which anything failed
+    lean_frac = float(os.environ.get("VERIF_C07_LEAN_FRAC", "1.0"))
     if ctx.get("widened"):
         n_scen *= 3
-        lean_frac = min(lean_frac, 0.15)
+        lean_frac = min(lean_frac, 0.3)
     lean_jobs = []
     counts = {"runs": 0, "sampled": 0, "failed": 0}
 
-    def one(case, tag, force_lean=False):
+    proj_jobs = []
+
+    def one(case, tag, force_lean=False, proj=False):
         jobs = []
         nv = len(res.violations)
-        obs = check_case(case, res, ctx, tag, jobs)
+        obs = check_case(case, res, ctx, tag, jobs, proj)
         brief, tr, endT, mon, conc = jobs[0]
         counts["runs"] += 1
+        if proj and obs.get("proj") and case.get("stack", "4") == "4" and not case.get("listen"):
+            from . import c07proj
+
+            try:
+                ign = {x[0] for x in obs.get("ignored", [])}
+                tr_proc = norm_trace(case, dict(obs, trace=[e for k, e in enumerate(obs["trace"]) if k not in ign]))
+                proj_jobs.extend((tag,) + x for x in c07proj.lines_for(case, obs, lean_line(tr, endT), lean_line(tr_proc, endT), spell_type, svc_name))
+            except Exception as ex:  # a side report must never break the check
+                res.count("proj:line-builder-error:%s" % type(ex).__name__)
         interesting = any(mon.values()) or bool(conc) or len(res.violations) > nv
         if interesting:
             counts["failed"] += 1
@@ -1390,7 +1999,7 @@ def run_inner(ctx):
         res.count("corpus")
     for i in range(n_scen):
         case = gen_case(rng, i, 0.04 if not thorough else 0.12)
-        base = one(case, "gen/%d" % i)
+        base = one(case, "gen/%d" % i, proj=ctx.get("driver_ok") and not ctx.get("widened") or bool(os.environ.get("VERIF_C07_PROJ")))
         res.count("family:" + case.get("family", "short"))
         n = base["ndeliveries"]
         # "the loss of any single datagram": (1) one delivery of it (one receiver misses it) -- swept for the first scenarios of the
@@ -1401,7 +2010,7 @@ def run_inner(ctx):
         sends_ptr = sorted({x[1] for x in tg if any(it[0] == "p" for it in _items_of(base, x[1]))})
         sends_q = sorted({x[1] for x in tg if any(it[0] == "q" for it in _items_of(base, x[1]))})
         nsend = base["nsend"]
-        if i < n_sweep:
+        if i < n_sweep and n <= 800:  # (a many-services scenario has thousands of deliveries: sampled like the rest)
             cand = list(range(n))
             dcand = [(d, m) for d in range(nsend) for m in ("all", "remote")]
             res.count("scenarios-with-every-single-drop-swept")
@@ -1426,19 +2035,36 @@ def run_inner(ctx):
     res.count("traces-evaluated-by-lean-monitors", len(lean_jobs))
     res.notes.append("Lean monitors (zcdriver c07) evaluated on %d of %d traces (%s: %s); the Python monitors and the oracle on all %d"
                      % (len(lean_jobs), counts["runs"], tier,
-                        "every trace" if lean_frac >= 1.0 else "uniform sample p=%.2f + all corpus cases + every run with a failed monitor/conclusion/oracle; "
-                        "the rest is skipped for the quick budget (about 0.03 s per trace)" % lean_frac, counts["runs"]))
+                        "every trace" if lean_frac >= 1.0 else "widened search: uniform sample p=%.2f + all corpus cases + every run with a failed "
+                        "monitor/conclusion/oracle" % lean_frac, counts["runs"]))
     if ctx.get("driver_ok"):
         lean_compare(res, lean_jobs)
+        proj_report(res, proj_jobs)
     res.rule = ("random scenarios (2-5 hosts, up to 30% started late; 1-6 services of 1-3 types, IPv4 / IPv6-only / dual, default and non-default "
-                "TTLs, with register / update / unregister / re-register at boundary-biased gaps; 1-4 browsers before/during/after; optional close; "
-                "long-horizon families up to 2.5 h) x delivery schedules (0..100 ms uniform / extremes / mixed, duplication none/some/many) x the "
+                "TTLs, with register / update / unregister / re-register at boundary-biased gaps; 1-4 browsers before/during/after, 30% of them one "
+                "browser object for several types; types / instance labels / host names in mixed case; optional close; hosts with one IPv4 socket, one "
+                "IPv6 socket (4-tuple deliveries, ff02::fb), both, or a dedicated listen socket; families: long horizons up to 2.5 h, "
+                "unregister-then-close, vocabulary (late host, multi-type browser, mixed case), multi-packet (2-6 services with 300-900 byte TXT or "
+                "21-32 services of one type on one host: answers and the close's goodbye are trains of packets)) x delivery schedules (0..100 ms uniform / extremes / mixed, duplication none/some/many) x the "
                 "loss of one datagram: one of its deliveries (sampled, biased to PTR-carrying datagrams) or the whole datagram (every receiver, "
                 "with or without the sender's loop-back); both swept exhaustively for the first tenth of the thorough scenarios; every run is "
                 "observed at lastChange+16 s (the proven bound), +16.001 s, +30 s and then periodically; oracle and Python contract monitors on every "
-                "run, compiled Lean monitors on every run (thorough) or a uniform 30% sample plus corpus plus all failures (quick); "
-                "non-trivial = distinct (hosts, services, types, browsers, late host, drop, delay mode, dups, close, update, unregister, Removed seen, refused registration)")
+                "run, compiled Lean monitors on every run (both tiers; a 30% sample plus corpus plus all failures only in the widened search); "
+                "non-trivial = distinct (hosts, services, types, browsers, late host, drop, delay mode, dups, close, update, unregister, Removed seen, refused "
+                "registration, socket topology, mixed case, multi-type browser, multi-packet message)")
     return res
+
+
+def _has_train(obs):
+    """did some host put two response datagrams with PTR items on the link at one instant for one destination (a split message)?"""
+    seen = set()
+    for e in obs["trace"]:
+        if e[1] == "send" and any(it[0] == "p" for it in e[5]):
+            k = (e[0], e[2], e[4], obs["datagrams"][e[3]][2])
+            if k in seen:
+                return True
+            seen.add(k)
+    return False
 
 
 def _items_of(obs, d):
